@@ -130,6 +130,10 @@ def monitor_descr(rp, d, td, err, aliases):
         else:
             if td[new] != inp[new]:
                 return ('replacement-changed-without-alias:%s' % new, '%r -> %r' % (inp[new], td[new]))
+    if inp['use_mpi'] is None and td['use_mpi'] is not None and td['use_mpi'] != bool(td['ranks'] - 1):
+        # (whichever spelling gave the rank count: the default is derived from the normalised description)
+        return ('derived-use_mpi-contradicts-ranks', 'use_mpi was not given; verify() made it %r for ranks=%r (description %s)'
+                % (td['use_mpi'], td['ranks'], {k: v for k, v in d.items() if k in ('ranks', 'cpu_processes', 'use_mpi')}))
     if inp['use_mpi'] is not None and td['use_mpi'] != inp['use_mpi']:
         return ('explicit-use_mpi-overwritten', 'use_mpi=%r became %r (ranks %r)' % (inp['use_mpi'], td['use_mpi'], td['ranks']))
     for k in ('arguments', 'environment', 'priority', 'executable', 'function', 'code', 'command',
@@ -557,4 +561,4 @@ def replay(ctx, data):
         bad, _ = fn_case(rp, i['seed'], i['index'])
         print('observed:', bad)
         return not bad
-    return False
+    raise NotImplementedError('replay: unknown kind of input')
